@@ -1,20 +1,36 @@
 -------------------------- MODULE MC_RecoveryConc --------------------------
 EXTENDS RecoveryConc, Json
-CONSTANTS N,          \* number of failing consumers (2 or 3)
-          P1, P2, P3  \* phase ("s" or "e") in which consumer i fails (P3 unused when N = 2)
+CONSTANTS Shape,      \* "fan": one producer a, consumers b1..bN;  "dd": double diamond a1 -> {x, z}, a2 -> {y, z} (N = 3)
+          N,          \* number of failing consumers (2 or 3)
+          P1, P2, P3, \* phase ("s" or "e") in which consumer i fails (P3 unused when N = 2)
+          W,          \* index of the consumer whose failure is the fail-stop
+          Simul       \* generation only: TRUE = every consumer has failed before the first Synchronize (simultaneous failures)
 Phases == <<P1, P2, P3>>
-Names == <<"b1", "b2", "b3">>
+Names == IF Shape = "fan" THEN <<"b1", "b2", "b3">> ELSE <<"x", "y", "z">>
 MCCons == {Names[i] : i \in 1..N}
+MCProd == IF Shape = "fan" THEN {"a"} ELSE {"a1", "a2"}
+MCLockOrd == IF Shape = "fan" THEN <<"a">> ELSE <<"a1", "a2">>
+MCNeeds == [c \in MCCons |-> IF Shape = "fan" THEN {"a"} ELSE IF c = "x" THEN {"a1"} ELSE IF c = "y" THEN {"a2"} ELSE {"a1", "a2"}]
 MCPhase == [c \in MCCons |-> Phases[CHOOSE i \in 1..N : Names[i] = c]]
-MCWiper == "b1"
+MCWiper == Names[W]
 \* hide the event history when only checking properties
-View == <<pc, saw, dec, statusA, execsA, wiped, losses, lockA>>
-Emit == PrintT(ToJson([n |-> N, phases |-> Phases, trace |-> trace, pc |-> pc, saw |-> saw, dec |-> dec,
-                       execsA |-> execsA, losses |-> losses]))
+View == <<pc, saw, dec, link, status, owner, execs, pend, wiped, losses, lock>>
+Emit == PrintT(ToJson([n |-> N, shape |-> Shape, wiper |-> Wiper, phases |-> Phases, needs |-> Needs, trace |-> trace, pc |-> pc,
+                       saw |-> saw, dec |-> dec, link |-> link, execs |-> execs, losses |-> losses]))
 Ended == Len(trace) > 0 /\ trace[Len(trace)][1] = "end"
 GenInit == Init
-GenNext == \/ \E c \in Cons : Step(c)
-           \/ /\ Settled /\ ~Ended /\ Emit
+\* Generation: only the visible events matter (the driver opens its gates one at a time, so the request locks are never contended in an
+\* imposed behaviour and the re-execution of the failed job is not steered): AcquireLocks + Synchronize as one step, Rerun left out.
+\* The set of (trace, decisions) is the same as that of Next (a lock only delays a Synchronize; decisions depend on the status read
+\* at Synchronize time).
+LockSync(c) == /\ pc[c] = "built" /\ \A p \in G(c) : lock[p] = "none"
+               /\ Simul => \A x \in Cons : pc[x] # "run"
+               /\ Decide(c) /\ UNCHANGED <<saw, execs, wiped, losses, lock>>
+               /\ trace' = Append(trace, <<"sync", c>>)
+GenSettled == \A c \in Cons : pc[c] \in {"rerun", "done", "stuck"}
+GenNext == \/ \E c \in Cons : FailBuild(c) \/ LockSync(c)
+           \/ \E p \in Prod : PStep(p)
+           \/ /\ GenSettled /\ ~Ended /\ Emit
               /\ trace' = Append(trace, <<"end", "">>)
-              /\ UNCHANGED <<pc, saw, dec, statusA, execsA, wiped, losses, lockA>>
+              /\ UNCHANGED <<pc, saw, dec, link, status, owner, execs, pend, wiped, losses, lock>>
 =============================================================================
